@@ -6,6 +6,17 @@ impl VM {
     }
 
     pub fn set_global(&mut self, name: String, value: Value) {
+        // The by-index vector of the layout that is loaded is the other view of the same
+        // globals.  When that layout has a slot for this name, write it too: a host call into a
+        // function of the layout that is still loaded does not reload it, and the next copy-back
+        // (sync_loaded_globals) would put the old value over the new one.
+        if let Some(layout) = self.current_global_layout.as_ref() {
+            if let Some(idx) = layout.names().iter().position(|n| n == &name) {
+                if idx < self.globals_by_index.len() {
+                    self.globals_by_index[idx] = value;
+                }
+            }
+        }
         self.globals.insert(name, value);
         self.globals_by_index_cache.clear();
         // security: Invalidate call site cache to prevent use-after-free.
